@@ -58,9 +58,27 @@ ASSUMPTIONS = [
 LINE_BUDGET = 2000
 
 
+_USER_TYPES = {}
+
+
+class _Types(dict):
+    """'VarInt', 'VarLong', and 'User:<base>:<k>': a user's own type declared
+    the way the library declares VarLong - a subclass whose only member is
+    `max_bytes = k` (a 3-byte frame-length type, a 2-byte id type).  Its
+    nominal maximum is k, so the same decoding contract applies with k in
+    place of 5 / 10."""
+    def __missing__(self, name):
+        kind, base, k = name.split(':')
+        if name not in _USER_TYPES:
+            _USER_TYPES[name] = type('User%s%s' % (base, k), (self[base][0],),
+                                     {'max_bytes': int(k)})
+        return (_USER_TYPES[name], int(k), 2 ** (7 * int(k)))
+
+
 def _types():
     from minecraft.networking.types import VarInt, VarLong
-    return {'VarInt': (VarInt, 5, 2 ** 32), 'VarLong': (VarLong, 10, 2 ** 64)}
+    return _Types({'VarInt': (VarInt, 5, 2 ** 32),
+                   'VarLong': (VarLong, 10, 2 ** 64)})
 
 
 def _buffered(data, chunk, bufsize):
@@ -518,6 +536,35 @@ _byte = st.one_of(st.integers(0x80, 0xFF), st.integers(0, 0xFF),
                   st.sampled_from([0x80, 0xFF, 0x7F, 0x00, 0x01]))
 
 
+def t_decode_user_types(ctx):
+    """user subclasses with max_bytes = 1..12 on either base: every
+    continuation shape up to k + 3 bytes with boundary payloads, and every
+    string of up to 2 bytes"""
+    for base in ('VarInt', 'VarLong'):
+        for k in range(1, 13):
+            tname = 'User:%s:%d' % (base, k)
+            for L in range(1, k + 4):
+                for term in (True, False):
+                    for pay in (0x00, 0x01, 0x7F, 0x55):
+                        data = bytes([0x80 | pay] * (L - 1) +
+                                     [pay if term else 0x80 | pay])
+                        for via in (None, 'ctx_class', 'ctx_instance'):
+                            decode_case(ctx, {'type': tname, 'data': data,
+                                              'traced': via is None,
+                                              'via': via})
+                        decode_case(ctx, {'type': tname, 'data': data,
+                                          'stream': (1 + L % 3, 8)})
+            for a in range(0, 256, 5):
+                decode_case(ctx, {'type': tname, 'data': bytes([a])})
+                for b in (0, 1, 0x7F, 0x80, 0xFF):
+                    decode_case(ctx, {'type': tname, 'data': bytes([a, b])})
+    ctx.label('decode_user_subclass_max_bytes')
+    ctx.sample({'type': 'User:VarInt:3', 'data': b'\x80\x80\x80\x80\x01'},
+               'decode')
+    ctx.exhaustive_done('user subclasses max_bytes 1..12 of both bases x '
+                        'continuation shapes up to k+3 bytes')
+
+
 def t_decode_random(ctx, n):
     strat = st.tuples(st.sampled_from(['VarInt', 'VarLong']),
                       st.lists(_byte, max_size=40).map(bytes))
@@ -669,6 +716,7 @@ def tasks(tier):
     tl.append(('dec_shapes_0_11', t_decode_shapes, dict(lo=0, hi=12)))
     tl.append(('dec_shapes_12', t_decode_shapes, dict(lo=12, hi=13)))
     tl.append(('dec_shapes_13', t_decode_shapes, dict(lo=13, hi=14)))
+    tl.append(('dec_user_types', t_decode_user_types, {}))
     for i in range(2 if q else 8):
         tl.append(('dec_random_%d' % i, t_decode_random,
                    dict(n=3000 if q else 40000)))
